@@ -567,3 +567,12 @@ func ViewSet(alt bool) []ViewDef {
 	}
 	return []ViewDef{viewByN, viewTags, viewBySeq, viewAll}
 }
+
+// ViewRows runs one non-stale view query of the installed design document and returns canonical rows (or the error text).
+func (s *Sim) ViewRows(b, c int, view string, params map[string]any, useIter bool) ([]VRow, string) {
+	rows, err := s.runView(b, c, DDocName, view, params, useIter)
+	if err != nil {
+		return nil, err.Error()
+	}
+	return rows, ""
+}
